@@ -39,9 +39,12 @@ type c17File struct {
 	// test (its data directory, the directory of its configuration file,
 	// the temporary directory).
 	Kind string `json:"kind,omitempty"`
-	N    int    `json:"n"`
-	Abs  string `json:"path"`
-	Host string `json:"host"`
+	// extra is the text after the file's own rule: lines that name other
+	// files (c17SetMentions).
+	extra string
+	N     int    `json:"n"`
+	Abs   string `json:"path"`
+	Host  string `json:"host"`
 }
 
 type c17Tree struct {
@@ -71,6 +74,10 @@ var c17TreeFiles = []string{
 	// separator lines up with a metacharacter of a pattern for the latter:
 	// "prv/keys" against "????????", "sub/e" against "sub?e".
 	"lists/prv/keys.txt", "lists/abcdefgh.txt", "lists/subxe.txt",
+	// Lists whose CONTENT names other files (see c17Mentions) and the files
+	// they name: next to the list, below it, above it.
+	"inc/main.txt", "inc/main.txt.bak", "inc/sibling.lst", "inc/private/extra.rules",
+	"inc/nested/main.txt", "inc/nested/other.txt", "inc/nested/deeper/x.txt",
 	"lists2/a.txt", "lists2/sub/e.txt",
 	"secret/c.txt", "secret/a.txt", "secret/key.pem",
 	"secret/deep/k.txt", "secret/deep/a.txt",
@@ -81,7 +88,72 @@ var c17TreeFiles = []string{
 func c17Rule(host string) string { return "||" + host + "^" }
 
 func c17FileBody(f *c17File) []byte {
-	return []byte(fmt.Sprintf("! Title: tree file %d\n%s\n", f.N, c17Rule(f.Host)))
+	return []byte(fmt.Sprintf("! Title: tree file %d\n%s\n%s", f.N, c17Rule(f.Host), f.extra))
+}
+
+// c17MentionSyntaxes are the ways in which the text of a list may name
+// another file.  Reading a list that matches a pattern must not make the
+// server read what the list's text names: a file is read only if its own path
+// matches a pattern.  For the list parser all of these are comments or
+// (meaningless) rule lines.
+var c17MentionSyntaxes = []string{
+	"!#include %s", "!#include ./%s", "!#include  %s ", "!#include \"%s\"", "!#INCLUDE %s", "! #include %s", "!#include:%s",
+	"!include %s", "! include: %s", "!#import %s", "!#source %s", "!#if (exists %s)", "!+ include %s",
+	"@include %s", "@include \"%s\"", "@import %s", "$include %s", "$include(%s)", "%%include %s",
+	"#include %s", "#include \"%s\"", "#include <%s>", "# include %s", "# see %s", "#!include %s",
+	"include %s", "source %s", ". %s", "import %s", "[include %s]", "{{include %s}}", "0.0.0.0 mention.example # %s",
+	"!#safari_cb_affinity(%s)", "! Expires: %s", "! Homepage: %s", "%s",
+}
+
+// c17Mentions renders every syntax for every name.
+func c17Mentions(names []string, syntaxes []string) string {
+	var sb strings.Builder
+	for _, n := range names {
+		for _, syn := range syntaxes {
+			fmt.Fprintf(&sb, syn+"\n", n)
+		}
+	}
+	return sb.String()
+}
+
+// c17SetMentions fills the text that every tree file carries after its own
+// rule: the two lists in inc/ name their neighbours in every syntax; every
+// other file names up to three files of its own directory and one below it
+// in the include syntaxes.
+func (tr *c17Tree) c17SetMentions() {
+	byDir := map[string][]*c17File{}
+	for _, f := range tr.files {
+		byDir[filepath.Dir(f.Abs)] = append(byDir[filepath.Dir(f.Abs)], f)
+	}
+	inc := filepath.Join(tr.root, "inc")
+	secret := filepath.Join(tr.root, "secret", "c.txt")
+	for _, f := range tr.files {
+		dir := filepath.Dir(f.Abs)
+		switch f.Abs {
+		case filepath.Join(inc, "main.txt"):
+			f.extra = c17Mentions([]string{"main.txt.bak", "sibling.lst", "private/extra.rules", "nested/other.txt",
+				"nested/deeper/x.txt", "../secret/c.txt", "private/../sibling.lst", secret, "file://" + secret,
+				filepath.Join(inc, "main.txt.bak")}, c17MentionSyntaxes)
+		case filepath.Join(inc, "nested", "main.txt"):
+			f.extra = c17Mentions([]string{"other.txt", "deeper/x.txt", "../sibling.lst", "../main.txt.bak",
+				filepath.Join(inc, "nested", "other.txt")}, c17MentionSyntaxes)
+		default:
+			var names []string
+			for _, g := range byDir[dir] {
+				if g != f && len(names) < 3 {
+					names = append(names, filepath.Base(g.Abs))
+				}
+			}
+			for _, g := range tr.files {
+				if filepath.Dir(filepath.Dir(g.Abs)) == dir {
+					rel, _ := filepath.Rel(dir, g.Abs)
+					names = append(names, rel)
+					break
+				}
+			}
+			f.extra = c17Mentions(names, c17MentionSyntaxes[:3])
+		}
+	}
 }
 
 // bump rewrites every tree file with the rule of the next generation.  The
@@ -125,11 +197,14 @@ func c17BuildTree(root string) (tr *c17Tree, err error) {
 			return nil, err
 		}
 		f := &c17File{N: i + 1, Abs: abs, Host: fmt.Sprintf("g0-%d.example", i+1)}
-		if err = os.WriteFile(abs, c17FileBody(f), 0o644); err != nil {
-			return nil, err
-		}
 		tr.files = append(tr.files, f)
 		tr.byAbs[abs] = f
+	}
+	tr.c17SetMentions()
+	for _, f := range tr.files {
+		if err = os.WriteFile(f.Abs, c17FileBody(f), 0o644); err != nil {
+			return nil, err
+		}
 	}
 	if err = os.MkdirAll(filepath.Join(root, "x"), 0o755); err != nil {
 		return nil, err
@@ -626,6 +701,10 @@ func c17PatternPool(r string) (fixed []c17Cfg, pool []string) {
 		{"class-at-separator", []string{p("lists/sub[^a]e.txt"), p("lists/sub[!a]e.txt"), p("lists/sub[a-z]e.txt"), p("lists/sub[.-0]e.txt")}},
 		{"negated-class-next-to-star", []string{p("lists/*[^a]e.txt"), p("lists/[^a]*e.txt"), p("lists/*[^x]*.txt"), p("secret[^a]*")}},
 		{"star-question-mix", []string{p("lists/*?e.txt"), p("lists/???*????.txt"), p("*?a.txt")}},
+		// Lists whose text names files outside the patterns.
+		{"list-content-names-files", []string{p("inc/*.txt")}},
+		{"list-content-names-files-exact", []string{p("inc/main.txt"), p("inc/fifo-main.txt")}},
+		{"list-content-names-files-nested", []string{p("inc/*/main.txt"), p("inc/main.txt")}},
 		{"escaped-next-to-meta", []string{p(`lists/su\b?e.txt`), p(`lists/\s\u\b*`), p(`lists/sub\/e.txt`)}},
 		// Malformed patterns: the server may refuse to start with them; if
 		// it starts, they match nothing.
@@ -1389,18 +1468,29 @@ var c17CmpFiles = []struct{ rel, kind, body string }{
 // c17Fifos are named pipes; opening one for reading blocks.
 var c17Fifos = []string{"secret/fifo.txt", "lists/sub/fifo.txt"}
 
+// c17FifoList is a valid list whose text names the FIFO next to it
+// (c17FifoListTarget) in every syntax.  It is not a tree file: it is used
+// only by mentionFifoOps, under a deadline.
+const (
+	c17FifoList       = "inc/fifo-main.txt"
+	c17FifoListTarget = "inc/fifo.inc"
+)
+
 func (tr *c17Tree) c17MakeObservers() error {
 	for _, c := range c17CmpFiles {
 		if err := os.WriteFile(filepath.Join(tr.root, c.rel), []byte(c.body), 0o644); err != nil {
 			return err
 		}
 	}
-	for _, rel := range c17Fifos {
+	for _, rel := range append([]string{c17FifoListTarget}, c17Fifos...) {
 		if err := syscall.Mkfifo(filepath.Join(tr.root, rel), 0o644); err != nil {
 			return err
 		}
 	}
-	return nil
+	body := "! Title: names a fifo\n||fifo-main.example^\n" +
+		c17Mentions([]string{filepath.Base(c17FifoListTarget), "./" + filepath.Base(c17FifoListTarget),
+			filepath.Join(tr.root, c17FifoListTarget)}, c17MentionSyntaxes)
+	return os.WriteFile(filepath.Join(tr.root, c17FifoList), []byte(body), 0o644)
 }
 
 // contentIndependence asks add_url and set_url for the three files (when no
@@ -1458,6 +1548,24 @@ func (in *c17Inst) contentIndependence() {
 	in.cleanFilters(in.baseID[false], in.baseID[true])
 }
 
+// c17ReleaseFifo lets a request that blocks on the FIFO go on: it opens and
+// closes the writing end (non-blocking; that succeeds only while a reader has
+// the FIFO open or waits in open) again and again, because the request may
+// open the FIFO several times, until done reports that the request returned.
+func c17ReleaseFifo(fifo string, done func() bool) (readerSeen, released bool) {
+	for i := 0; i < 3000; i++ {
+		if done() {
+			return readerSeen, true
+		}
+		if fd, err := syscall.Open(fifo, syscall.O_WRONLY|syscall.O_NONBLOCK, 0); err == nil {
+			_ = syscall.Close(fd)
+			readerSeen = true
+		}
+		time.Sleep(5 * time.Millisecond)
+	}
+	return readerSeen, done()
+}
+
 // c17FifoHung remembers the entry points at which a FIFO was already found
 // opened (one witness each is enough; every further try costs a deadline).
 var c17FifoHung = map[string]bool{}
@@ -1509,25 +1617,93 @@ func (in *c17Inst) fifoOps() {
 				c17FifoHung[entry] = true
 				// Let the blocked open (or read) go on: open and close the
 				// writing end.
-				unblocked := false
-				for i := 0; i < 100 && !unblocked; i++ {
-					if fd, err := syscall.Open(abs, syscall.O_WRONLY|syscall.O_NONBLOCK, 0); err == nil {
-						_ = syscall.Close(fd)
-						unblocked = true
-					} else {
-						time.Sleep(20 * time.Millisecond)
+				unblocked, released := c17ReleaseFifo(abs, func() bool {
+					select {
+					case r := <-ch:
+						ch <- r
+						return true
+					default:
+						return false
 					}
-				}
+				})
 				rep.Violate("unsafe-open:fifo-outside-patterns-opened:"+entry,
 					fmt.Sprintf("%s naming the FIFO %s, which matches no safe pattern, did not return within %s: the FIFO was opened for reading", entry, abs, c17FifoDeadline),
 					map[string]any{"safe_fs_patterns": in.cfg.Patterns, "fifo": abs, "a_reader_was_waiting_on_the_fifo": unblocked})
-				select {
-				case <-ch:
-				case <-time.After(10 * time.Second):
+				if !released {
 					rep.Inconcl("a request blocked on a FIFO could not be released")
 				}
 			}
 		}
+	}
+}
+
+// mentionFifoOps adds (and sets) the list c17FifoList when it matches the
+// patterns while the FIFO its text names does not: the list must be taken
+// promptly; a request that hangs has opened the FIFO because the list's text
+// named it.
+func (in *c17Inst) mentionFifoOps() {
+	rep, tr := in.env.rep, in.env.tr
+	list, fifo := filepath.Join(tr.root, c17FifoList), filepath.Join(tr.root, c17FifoListTarget)
+	if !c17MatchAny(in.cfg.Patterns, list) || c17MatchAny(in.cfg.Patterns, fifo) || in.cfg.Kind == "malformed-pattern" {
+		return
+	}
+	for _, entry := range []string{"add_url", "set_url"} {
+		key := entry + ":via-list-content"
+		if c17FifoHung[key] {
+			continue
+		}
+		type res struct {
+			st   int
+			body string
+		}
+		ch := make(chan res, 1)
+		go func() {
+			var r res
+			if entry == "add_url" {
+				r.st, r.body = in.call(http.MethodPost, "/control/filtering/add_url", map[string]any{"name": "n", "url": list})
+			} else {
+				r.st, r.body = in.call(http.MethodPost, "/control/filtering/set_url", map[string]any{"url": in.baseURL[false], "whitelist": false,
+					"data": map[string]any{"name": "n", "url": list, "enabled": true}})
+			}
+			ch <- r
+		}()
+		rep.Eval(true, fmt.Sprintf("fifo-named-by-list|%s|%v", entry, in.cfg.Patterns))
+		rep.Class("fifo-named-in-text-of-allowed-list:" + entry)
+		select {
+		case r := <-ch:
+			if c17OK(r.st) {
+				rep.Event("allowed_lists_naming_a_fifo_taken_promptly")
+			} else {
+				rep.Violate("plain-allowed-rejected:"+entry+":list-naming-a-fifo", "a list that matches a safe pattern was refused",
+					map[string]any{"safe_fs_patterns": in.cfg.Patterns, "list": list, "status": r.st, "body": c17Trunc(r.body)})
+			}
+		case <-time.After(c17FifoDeadline):
+			c17FifoHung[key] = true
+			unblocked, released := c17ReleaseFifo(fifo, func() bool {
+				select {
+				case r := <-ch:
+					ch <- r
+					return true
+				default:
+					return false
+				}
+			})
+			rep.Violate("unsafe-open:fifo-outside-patterns-opened:"+key,
+				fmt.Sprintf("%s of the allowed list %s did not return within %s: the FIFO %s, which matches no safe pattern and is only named in the list's text, was opened for reading",
+					entry, list, c17FifoDeadline, fifo),
+				map[string]any{"safe_fs_patterns": in.cfg.Patterns, "list": list, "fifo": fifo, "a_reader_was_waiting_on_the_fifo": unblocked})
+			if !released {
+				rep.Inconcl("a request blocked on a FIFO could not be released")
+			}
+		}
+		// Undo.
+		if entry == "add_url" {
+			in.call(http.MethodPost, "/control/filtering/remove_url", map[string]any{"url": list, "whitelist": false})
+		} else {
+			in.call(http.MethodPost, "/control/filtering/set_url", map[string]any{"url": list, "whitelist": false,
+				"data": map[string]any{"name": "base", "url": in.baseURL[false], "enabled": true}})
+		}
+		in.cleanFilters(in.baseID[false], in.baseID[true])
 	}
 }
 
@@ -1950,6 +2126,7 @@ func (e *c17Env) runConfig(rng *rand.Rand, cfg c17Cfg, nRandom int) {
 	}
 	in.contentIndependence()
 	in.fifoOps()
+	in.mentionFifoOps()
 	nAllowed := len(in.allowed)
 	if len(rep.Samples) < 4 {
 		rep.Sample(map[string]any{"safe_fs_patterns": cfg.Patterns, "tree_files_inside_patterns": nAllowed,
@@ -2106,7 +2283,7 @@ func c17Run(t *testing.T, rep *verifkit.Report, strace bool) {
 
 func TestVerifC17(t *testing.T) {
 	rep := verifkit.New("C17", "paths",
-		"case = (safe_fs_patterns list, location string, entry point in {add_url, set_url, set_url on a disabled list then enabling it, refresh of a list written into the configuration, second refresh, and the same refresh after a restart on a data directory that already holds cached files for the list ids: written by the monitor / left by an earlier instance that refreshed http lists under those ids / left by an earlier instance with a wider pattern list and the same locations}); the operation runs against a real DNSFilter (captured HTTP handlers) over a tree of 29 files that each hold a unique rule (plus FIFOs and HTML/binary files outside the patterns as content-independent observers at add_url/set_url); content of a file may become observable (stored list file, response body, rule count, CheckHost) only if its cleaned absolute path matches a pattern by filepath.Match; non-trivial = some reading of the location names an existing file; distinct by (entry point, patterns, location, block/allow)")
+		"case = (safe_fs_patterns list, location string, entry point in {add_url, set_url, set_url on a disabled list then enabling it, refresh of a list written into the configuration, second refresh, and the same refresh after a restart on a data directory that already holds cached files for the list ids: written by the monitor / left by an earlier instance that refreshed http lists under those ids / left by an earlier instance with a wider pattern list and the same locations}); the operation runs against a real DNSFilter (captured HTTP handlers) over a tree of 36 files that each hold a unique rule and whose text names neighbouring files in include-like syntaxes (plus FIFOs and HTML/binary files outside the patterns as content-independent observers at add_url/set_url); content of a file may become observable (stored list file, response body, rule count, CheckHost) only if its cleaned absolute path matches a pattern by filepath.Match; non-trivial = some reading of the location names an existing file; distinct by (entry point, patterns, location, block/allow)")
 	defer func() {
 		if err := rep.Write(); err != nil {
 			t.Fatal(err)
